@@ -373,6 +373,12 @@ func runC15(c *Ctx) error {
 		if err != nil {
 			return err
 		}
+		for _, x := range h.X {
+			if x == "free" {
+				// a replay of a free-running case runs a new race on a history of the same length
+				return runC15Free(c, 3, len(h.Subs)*7/8)
+			}
+		}
 		conc, nreads, prefs, err := parseConc(h)
 		if err != nil {
 			return err
@@ -458,5 +464,6 @@ func runC15(c *Ctx) error {
 			return err
 		}
 	}
-	return nil
+	// free-running readers (linearizability against the model), authentication on, see c15_free.go
+	return runC15Free(c, c.Pick(2, 10), c.Pick(140, 400))
 }
